@@ -2,7 +2,7 @@
 # Development-time: evaluate every seeded change with its own property's check plus related ones.
 # usage: tools/eval_all.sh [seeded-dir ...]   (default: all)   -> appends to /tmp/seed_eval2.log
 cd /verif
-declare -A EXTRA=( [C08-2]="C06" [C06-1]="C08" [C15-1]="C14" [C15-2]="C14" [C07-1]="C17" [C07-2]="C04" [C04-1]="C07" [C03-1]="C02" [C03-2]="C02" [C14-1]="C09" [C11-2]="C09" [C01-1]="C02" [C06-4]="C15" )
+declare -A EXTRA=( [C08-2]="C06" [C06-1]="C08" [C15-1]="C14" [C15-2]="C14" [C07-1]="C17" [C07-2]="C04" [C04-1]="C07" [C03-1]="C02" [C03-2]="C02" [C14-1]="C09" [C11-2]="C09" [C01-1]="C02" [C06-4]="C15" [C08-5]="C09" [C08-6]="C09" )
 LIST="$@"; [ -z "$LIST" ] && LIST=$(ls seeded)
 for S in $LIST; do
   P=${S%-*}
